@@ -25,7 +25,9 @@ section Property
     listing: the outcome of `rawTx` satisfies `P16` — if a transaction is produced it has exactly one output per proposal
     paying its exact amount to its recipient's script, then the zero-value metadata output, then at most one positive change
     output to the bridge; its inputs are a prefix of the bridge's UTXO list; no output value is negative; inputs minus
-    outputs equals the relayer's fee quote for that shape; with an invalid recipient no transaction is produced. -/
+    outputs equals the relayer's (second) fee quote for the shape (#inputs, #proposals + 1 outputs) — as in the code the
+    quote counts the proposal outputs and the metadata output but NOT the change output, whether or not one is appended;
+    with an invalid recipient no transaction is produced. -/
 theorem rawTx_P16 (i : Inp) (hwf : WF i) : P16 i (rawTx i) := by
   obtain ⟨hn, hr1, hr2, hus⟩ := hwf
   unfold rawTx
@@ -211,6 +213,20 @@ theorem rawTx_none_of_cannotCover (i : Inp) (hwf : WF i) (r2 : Nat) (us : List U
     have := rawTx_P16 i hwf
     rw [h] at this
     exact absurd this (insufficient_funds_no_tx i r2 us hr hu hamt hc tx)
+
+/-- the hypothesis `cannotCover` is satisfiable in the band between the amount and amount + fee: a 10 000-sat proposal, fee
+    quote 1 240 for (1 input, 2 outputs), one UTXO of 10 500 sat — the total covers the amount but no prefix covers amount +
+    fee, and `rawTx` refuses -/
+example :
+    let us : List Utxo := [⟨[97], 0, 10500, 1000, true⟩]
+    let i : Inp := ⟨some 1, some 1, some [], [0x51], [⟨10000, some [0]⟩], some us⟩
+    sumAmounts i.props ≤ sumValues us ∧ cannotCover i 1 us ∧ rawTx i = none := by
+  intro us i
+  have hc : cannotCover i 1 us := by
+    intro k hk
+    have hk' : k = 0 ∨ k = 1 := by simp [us] at hk; omega
+    rcases hk' with rfl | rfl <;> decide
+  exact ⟨by decide, hc, rawTx_none_of_cannotCover i (by decide) 1 us rfl rfl hc⟩
 
 /-- an invalid recipient admits no transaction (any outcome satisfying `P16`, hence `rawTx`) -/
 theorem invalid_recipient_no_tx (i : Inp) (p : Prp) (hp : p ∈ i.props) (hs : p.script = none) (tx : Tx) :
